@@ -161,9 +161,95 @@ pub fn main(args: &Args) -> i32 {
         local.note(PID, "fallback_histories", json!(n));
         rep.absorb(local);
     }
+    // what is served: two worlds with the same payload through one SharedHistory, the second expiring earlier
+    {
+        let mut local = Report::new("refresh");
+        let n = served_pass(&mut local, &factory, &behaviours, &order, args.opt_usize("served_limit", if args.thorough() { 120 } else { 24 }));
+        local.note(PID, "served_histories", json!(n));
+        rep.absorb(local);
+    }
     rep.note(PID, "worlds_exported", json!(total));
     rep.note(PID, "worlds_replayed", json!(order.len()));
     rep.write(args)
+}
+
+/// The deadline attached to the data set that is *served* (SharedHistory::update, RunLoop.tla Install): world A is
+/// validated and installed, then world B -- same payload, something on a contributing chain expiring earlier -- is
+/// validated (fresh cache) and installed.  What the history serves afterwards must carry B's deadline.
+fn served_pass(rep: &mut Report, factory: &Arc<Factory>, behaviours: &[Value], order: &[usize], limit: usize) -> usize {
+    use routinator::engine::Engine;
+    use routinator::payload::{SharedHistory, ValidationReport};
+    let bound_of = |b: &Value| b["bound"].as_i64().unwrap_or(9999);
+    let mut groups: BTreeMap<String, Vec<usize>> = BTreeMap::new();
+    for idx in order {
+        let b = &behaviours[*idx];
+        if !b["faults"].as_array().unwrap().is_empty() || bound_of(b) == 9999 { continue }
+        groups.entry(b["contributing"].to_string()).or_default().push(*idx);
+    }
+    let mut pairs: Vec<(usize, usize)> = Vec::new();
+    for (_, mut g) in groups {
+        g.sort_by_key(|i| std::cmp::Reverse(bound_of(&behaviours[*i])));
+        let a = g[0];
+        // one partner per distinct smaller bound
+        let mut seen = BTreeSet::new();
+        for i in g.iter().skip(1) {
+            let bd = bound_of(&behaviours[*i]);
+            if bd < bound_of(&behaviours[a]) && seen.insert((bd, brief(&behaviours[*i])["short"].to_string())) { pairs.push((a, *i)); }
+        }
+    }
+    let step = (pairs.len() / limit.max(1)).max(1);
+    let pairs: Vec<(usize, usize)> = pairs.into_iter().step_by(step).take(limit).collect();
+    let bed = TestBed::new();
+    let base = factory.now.timestamp();
+    let mut n = 0;
+    for (ia, ib) in pairs {
+        let cfg = bed.config();
+        let history = SharedHistory::from_config(&cfg);
+        let mut refresh: Vec<Option<i64>> = Vec::new();
+        let mut sizes: Vec<usize> = Vec::new();
+        let mut failed = false;
+        for idx in [ia, ib] {
+            let b = &behaviours[idx];
+            let t = times_of(b);
+            bed.wipe_cache();
+            bed.publish(&build_world(b, &t).build(factory));
+            let res = (|| -> Result<(), String> {
+                crate::env::init_process();
+                let mut engine = Engine::new(&cfg, true).map_err(|_| "Engine::new".to_string())?;
+                engine.ignite().map_err(|_| "ignite".to_string())?;
+                let (report, metrics) = ValidationReport::process(&engine, &cfg, false).map_err(|_| "run failed".to_string())?;
+                history.update(report, &LocalExceptions::empty(), metrics);
+                Ok(())
+            })();
+            if let Err(e) = res { rep.divergence(PID, format!("served history ({ia}, {ib}): {e}")); failed = true; break }
+            let cur = history.read().current();
+            refresh.push(cur.as_ref().and_then(|s| s.refresh()).map(|t| t.timestamp()));
+            sizes.push(cur.as_ref().map(|s| crate::env::payload_of(s).origins.len()).unwrap_or(0));
+        }
+        if failed { continue }
+        n += 1;
+        rep.eval(PID);
+        rep.trace(PID);
+        let (ba, bb) = (bound_of(&behaviours[ia]), bound_of(&behaviours[ib]));
+        rep.nontrivial(PID, format!("served|{}|{}", brief(&behaviours[ia]), brief(&behaviours[ib])));
+        if sizes[0] != sizes[1] || sizes[1] == 0 {
+            rep.divergence(PID, format!("served history ({ia}, {ib}): payload sizes {sizes:?}, expected the same non-empty payload"));
+            continue
+        }
+        let hours = |r: Option<i64>| r.map(|r| (r - base) as f64 / 3600.0);
+        let observed = json!({"served_refresh_hours_after_first": hours(refresh[0]), "served_refresh_hours_after_second": hours(refresh[1]),
+                              "bound_hours_first": ba, "bound_hours_second": bb});
+        let ctx = json!({"history": "world A validated and installed, then world B (same payload, earlier expiry) validated and installed",
+                         "first": brief(&behaviours[ia]), "second": brief(&behaviours[ib])});
+        match refresh[1] {
+            Some(r) if r > base + bb * 3600 => rep.violation(PID, "served-refresh-later-than/second-run-same-payload",
+                format!("after the second run the served data set carries a refresh deadline {:.2} h from now; its contributing objects expire after {bb} h (the first run's did after {ba} h)",
+                        (r - base) as f64 / 3600.0), ctx, observed),
+            None => rep.violation(PID, "no-refresh-time", "payload is served without any refresh deadline".to_string(), ctx, observed),
+            _ => {}
+        }
+    }
+    n
 }
 
 /// The stored-data path.  Run 1 validates and stores the world.  Then ca2 issues a newer manifest (number + 1) that
